@@ -6,9 +6,10 @@
    c05-main   stream                       -> [1] | [0; pc]       entry-point analysis only (calls summarised)
    c05-ann    stream                       -> per pc: reachable?, #frames, captures, auto-escapes, operand slots
    c05-stats  stream                       -> [#recursive loops; #call sites; #region analyses]
-   c05-trace  stream  nobs (pc stk frames caps aes)*   -> [1; steps] | [0; index; reason; pc; observed pc] (C05/Trace.v) *)
+   c05-trace  stream  nobs (pc stk frames caps aes)*   -> [1; steps] | [0; index; reason; pc; observed pc] (C05/Trace.v)
+   c05-rec    template of the recursive-loop family + trees   -> expected output / expected failure (C05/RecLoop.v) *)
 From Coq Require Import String.
-From MJ Require Import Common.Base C05.Model C05.Trace.
+From MJ Require Import Common.Base C05.Model C05.Trace C05.RecLoop.
 
 Definition dec_instr (tag a b : Z) : instr :=
   let n := Z.to_nat a in
@@ -117,4 +118,4 @@ Definition trace (inp : list Z) : list Z :=
 
 Open Scope string_scope.
 Definition runners : list (string * (list Z -> list Z)) :=
-  [ ("c05", run); ("c05-main", run_main); ("c05-ann", ann_of); ("c05-stats", stats); ("c05-trace", trace) ].
+  [ ("c05", run); ("c05-main", run_main); ("c05-ann", ann_of); ("c05-stats", stats); ("c05-trace", trace); ("c05-rec", run_rec) ].
